@@ -453,7 +453,9 @@ def judge(before: M.Model, new_files: T.Dict[str, str], cmd: dict, via: str, res
             # rewriter cannot know whether a file is already there in THIS configuration, and Meson ignores a
             # source listed twice (BuildTarget.process_sourcelist) -- compare as sets, not as multisets.
             st.count('oracle:value:configuration-dependent-sources-as-set')
-            lb, la = sorted(set(lb)), sorted(set(la))
+            as_set = True
+        else:
+            as_set = False
         sb, sa = set(lb), set(la)
         want = {json.dumps(os.path.normpath(x)) for x in cmd.get('sources', [])}
         st.count(f'oracle:value:{op}')
@@ -478,8 +480,30 @@ def judge(before: M.Model, new_files: T.Dict[str, str], cmd: dict, via: str, res
                 bug_l = [x for x in lb if x not in bw]
             if la == bug_l and bug_l != exp_l:
                 direct = 'subdir-target-existing-path-rebased'
-        if la != exp_l and not (op in ('src_rm', 'extra_files_rm') and la == alt_l):
-            if op in ('src_rm', 'extra_files_rm') and refusal and sa - exp <= want and exp <= sa and len(la) <= len(lb):
+        if as_set:
+            # expectations are still formed on the multisets (so that "one occurrence of a file listed twice was
+            # removed" stays an accepted reading), only the comparison ignores how often a file is listed
+            ok_state = set(la) == set(exp_l) or (op in ('src_rm', 'extra_files_rm') and set(la) == set(alt_l))
+        else:
+            ok_state = la == exp_l or (op in ('src_rm', 'extra_files_rm') and la == alt_l)
+        if not ok_state:
+            # the one refusal the rewriter announces for a file that IS in the target: the string is shared with another
+            # target ("too compilicated").  "Unable to find" a file the reference sees in the target is not a refusal.
+            shared_refusal = 'too compilicated' in log or 'too complicated' in log
+            kept = sa & want
+            if direct is None and op in ('src_rm', 'extra_files_rm') and 'Unable to find' in log and kept \
+                    and set(la) == {x for x in lb if x not in want or x in kept}:
+                # known finding: the array literal that holds the file reaches the target along TWO dataflow paths
+                # (directly, and through a `var += ...` inside an if/foreach block): Rewriter.get_relto() gives up
+                left = {json.loads(x) for x in sa & want if isinstance(json.loads(x), str)}
+                plus_in_block = {s.var for s in allowed if s.kind == 'plusassign' and s.conditional}
+                holders = [s for s in allowed if s.kind == 'assign' and s.var in plus_in_block and not s.conditional
+                           and any(n.kind == 'str' and os.path.normpath(os.path.join(rec.subdir, n.a[0])) in left
+                                   for n in M.walk(s.node))]
+                if left and holders:
+                    direct = 'rm-array-reaching-target-by-two-paths-not-found'
+            if direct is None and op in ('src_rm', 'extra_files_rm') and shared_refusal and sa - exp <= want and exp <= sa \
+                    and len(la) <= len(lb):
                 st.outcome = 'refused:documented'
             else:
                 st.failed('value', f'{what}-not-as-requested', witness({'before': lb, 'after': la, 'expected': exp_l}), expl(), direct)
@@ -1045,6 +1069,23 @@ def probes() -> T.List[T.Tuple]:
         del j
     P.append(('defopt-bool-spelling', {'meson.build': "project('p', default_options : ['werror=false', 'debug=true'])\n"},
               [dopt('set', werror='True'), dopt('set', debug='FALSE')], 'cli', False))
+    # sources through the `sources:` keyword in its literal forms
+    skw = base + ("executable('prog', 'main.c', sources : ['opt.c', 'log.c'], install : true)\n"
+                  "executable('aux', sources : files('aux.c', 'aux2.c'))\nexecutable('third', sources : ['t1.c', ['t2.c']])\n")
+    P.append(('sources-kwarg-literal-rm', {'meson.build': skw}, [tcmd('src_rm', 'opt.c'), tcmd('info'), tcmd('src_add', 'opt.c')], 'cli', False))
+    P.append(('sources-kwarg-files-rm', {'meson.build': skw}, [{**tcmd('src_rm', 'aux2.c'), 'target': 'aux'}, {**tcmd('src_add', 'aux3.c'), 'target': 'aux'},
+                                                             {**tcmd('info'), 'target': 'aux'}], 'json', False))
+    P.append(('sources-kwarg-nested-rm', {'meson.build': skw}, [{**tcmd('src_rm', 't2.c'), 'target': 'third'}, {**tcmd('src_rm', 'main.c', 'log.c')}], 'cli', False))
+    # a file in a sibling directory whose name starts with the name of the target's directory
+    sib = {'meson.build': "project('p')\ncommon = ['c0.c']\nsubdir('src')\n",
+           'src/meson.build': "foo_srcs = files('main.c')\nexecutable('prog', foo_srcs, 'util.c')\nexecutable('q', common, extra_files : ['q.h'])\n"}
+    P.append(('sibling-dir-name-prefix-add-rm', sib, [{**tcmd('src_add', 'src-common/shared.c'), 'law': 'add-then-rm'},
+                                                      {**tcmd('src_rm', 'src-common/shared.c'), 'law': 'add-then-rm'}], 'cli', False))
+    P.append(('sibling-dir-name-prefix-info', sib, [tcmd('src_add', 'srcs/gen/x.c', 'src_gen/y.c'), tcmd('info'),
+                                                    {**tcmd('extra_files_add', 'src2/q2.h'), 'target': 'q'}], 'json', False))
+    two = "project('p')\nsrcs = ['a.c', 'b.c']\nif get_option('x')\n  srcs += ['c.c']\nendif\nexecutable('prog', srcs)\n"
+    P.append(('rm-from-array-extended-in-branch', {'meson.build': two}, [tcmd('src_rm', 'a.c')], 'cli', False, [{'x': True}, {'x': False}]))
+    P.append(('rm-from-branch-extension', {'meson.build': two}, [tcmd('src_rm', 'c.c'), tcmd('src_add', 'n.c')], 'cli', False, [{'x': True}, {'x': False}]))
     # calibration on the shape of the repository's own fixtures
     fx = ("project('rewritetest')\nsrc1 = ['main.cpp', 'fileA.cpp']\nsrc2 = files(['fileB.cpp', 'fileC.cpp'])\n"
           "exe0 = executable('trivialprog0', src1 + src2)\nexe1 = executable('trivialprog1', src1)\n"
